@@ -41,6 +41,9 @@ func main() {
 			svcSessions(run, run.Pick(40, 300))
 		case "recv":
 			recvSessions(run, run.Pick(200, 2000))
+		case "fetch":
+			unlinkedAnnouncement(run)
+			fetchSessions(run, run.Pick(500, 6000))
 		case "finder":
 			finderFlows(run, run.Pick(30, 200))
 		}
@@ -52,6 +55,7 @@ func main() {
 	finderFlows(run, run.Pick(30, 200))
 	hfSessions(run, run.Pick(150, 1500))
 	fetchSessions(run, run.Pick(500, 6000))
+	unlinkedAnnouncement(run)
 	seqFilter(run)
 	lateFinderReply(run)
 	svcSessions(run, run.Pick(40, 300))
